@@ -322,7 +322,12 @@ func (cmd *mainCmd) Run(args []string) error {
 		if !ok {
 			if opts.Print {
 				if _, err := cmd.Stdout.Write(content); err != nil {
-					return err
+					// Like every other failure for one
+					// file. Returning here would drop the
+					// errors collected so far.
+					log.Printf("%s: failed: %v", filename, err)
+					errors = append(errors, err)
+					continue
 				}
 			}
 			log.Printf("%s: skipped", filename)
